@@ -10,7 +10,7 @@ pub const EXEMPLARS: &[(&str, &str)] = &[
     ("args-scalars", r#"{ i(x: 1) nn(n: 1) d s(x: "a") f(x: 1.5) b(x: true) id(x: "a") e(x: X) two(a: 1, b: 2) }"#),
     ("args-lists-objects", r#"{ l(x: [1, 2]) lnn(x: [1]) ll(x: [[1], [2]]) io(x: {r: 1, n: 2, sub: {r: 3, l: [4]}, e: Y}) lio(x: [{r: 1}, {r: 2, l: [5]}]) one(x: {a: 1}) }"#),
     ("variables", r#"query Q($i: Int, $n: Int!, $s: String, $li: [Int], $lnn: [Int!]!, $in: In, $e: E) { i(x: $i) nn(n: $n) s(x: $s) l(x: $li) l2: l(x: [$i, 1]) lnn(x: $lnn) l3: lnn(x: [$n]) io(x: $in) io2: io(x: {r: $n, n: $i, l: [$n]}) e(x: $e) }"#),
-    ("variable-defaults", r#"query Q($a: Int = 1, $b: Int, $c: Int! = 2, $o: One, $m: Int!) { nn(n: $a) d(n: $b) i(x: $c) one(x: {a: $m}) o2: one(x: $o) lio(x: {r: $m}) }"#),
+    ("variable-defaults", r#"query Q($a: Int = 1, $b: Int, $c: Int! = 2, $o: One, $m: Int!) { nn(n: $a) d(n: $b) i(x: $c) one(x: {a: $m}) o2: one(x: $o) lio(x: {r: $m}) l(x: [$a, 1]) io(x: {r: $c, n: 1}) }"#),
     ("fragments", r#"query Q { t { ...F } n { ...G ... on V { v { num } } } u { ... on T { num } ...G } } fragment F on T { num t { ...H } } fragment H on T { str } fragment G on N { num i(x: 1) }"#),
     ("merge-direct", r#"{ num num k: num k: num i(x: 1) i(x: 1) t { num } t { num str } }"#),
     ("merge-conditions", r#"{ n { num ... on T { num k: str } ... on V { num k: str } ... on N { num } ... { num } } u { ... on T { k: num j: i(x: 1) t { num } } ... on V { k: num j: i(x: 2) t { str } } } }"#),
@@ -173,13 +173,6 @@ fn p_dir(src: &str) -> Directive {
 }
 fn pn(s: &str) -> PName {
     PName::new(s)
-}
-
-fn key_of(s: &Selection) -> Option<String> {
-    match s {
-        Selection::Field(f) => Some(f.key().to_string()),
-        _ => None,
-    }
 }
 
 /// a fresh field node answering under `key`
